@@ -17,6 +17,16 @@
 (*   h p ...        - executor linearization points (under its mutex)      *)
 (*   stopcall/stopret - a thread calls request_stop / the call returned    *)
 (*   runret ok w    - run() returned                                       *)
+(*   call / ret     - a producer thread's send to a push source            *)
+(*   h pq_accepted / cf_accepted - the send was admitted (queue mutex)     *)
+(*   h pq_pop / pq_take_all / cf_take - the graph took one / all values    *)
+(*                                                                         *)
+(* "A value pushed while the loop is waiting is never missed", on a finite *)
+(* trace: the loop does not sit out a wait (leave it by time-out, not by a *)
+(* notification) while a pushed value has been waiting in a source since    *)
+(* before that wait began, no send that admitted a value is still on its   *)
+(* way to wake the loop, and no stop has been requested.  Nothing else     *)
+(* would ever wake the loop for that value: it was missed.                 *)
 (***************************************************************************)
 EXTENDS Integers, Sequences, FiniteSets, TLC, Json, IOUtils
 
@@ -33,6 +43,10 @@ FirstFail(cs, k) == IF k > Len(cs) THEN ""
 
 Max(a, b) == IF a >= b THEN a ELSE b
 End == Traces[tid].prog.end
+Srcs == 0..(Len(Traces[tid].prog.srcs) - 1)
+Get(f, k, d) == IF k \in DOMAIN f THEN f[k] ELSE d
+Put(f, k, v) == [x \in DOMAIN f \cup {k} |-> IF x = k THEN v ELSE f[x]]
+Effective(e) == IF "fx" \in DOMAIN e THEN e.fx = 1 ELSE TRUE     \* a dictionary delta with no effect carries no value
 DrainBound == 1024      \* executor.cpp max_immediate_drain_cycles: the only sanctioned cut
 
 InitS == [ prev     |-> 0,        \* evaluation time of the last cycle (the start time before the first)
@@ -50,7 +64,14 @@ InitS == [ prev     |-> 0,        \* evaluation time of the last cycle (the star
            wallNext |-> 0,        \* the executor's own wall reading at its last computation of the next time
            nextT    |-> 0,        \* the time it computed for the upcoming cycle
            cut      |-> FALSE,    \* the drain bound was applied
+           qn       |-> [x \in Srcs |-> 0],       \* pushed values admitted by a source and not yet taken by the graph
+           qstop    |-> [x \in Srcs |-> FALSE],   \* the source has stopped (whatever it held was discarded)
+           calls    |-> <<>>,     \* producer thread -> its open send: [fx, acc]
+           armed    |-> FALSE,    \* the loop began its wait with a pushed value waiting and nobody obliged to wake it
            ended    |-> FALSE ]
+
+PushWaiting(s) == \E x \in Srcs : ~s.qstop[x] /\ s.qn[x] > 0
+InFlightAccept(s) == \E th \in DOMAIN s.calls : s.calls[th].open /\ s.calls[th].acc
 
 OnCycle(e) ==
     LET why == FirstFail(<<
@@ -96,13 +117,28 @@ OnReq(e) ==
     IN IF why # "" THEN Fail(why)
        ELSE Ok([S EXCEPT !.pend = IF e.eff = -1 THEN @ ELSE @ \cup {<<e.eff, e.id, e.kind>>}])
 
+NoCall == [open |-> FALSE, fx |-> TRUE, acc |-> FALSE]
+OnAccepted(e) ==
+    LET c == Get(S.calls, e.th, NoCall) IN
+    IF ~c.open \/ ~c.fx \/ e.src \notin Srcs THEN Ok(S)
+    ELSE Ok([S EXCEPT !.qn[e.src] = @ + 1, !.calls = Put(@, e.th, [c EXCEPT !.acc = TRUE])])
+
 OnHook(e) ==
     CASE e.p = "rt_mark_push_set" -> Ok([S EXCEPT !.fPush = TRUE])
+      [] e.p \in {"pq_accepted", "cf_accepted"} -> OnAccepted(e)
+      [] e.p = "pq_pop" /\ e.src \in Srcs -> Ok([S EXCEPT !.qn[e.src] = Max(0, @ - 1)])
+      [] e.p \in {"pq_take_all", "cf_take"} /\ e.src \in Srcs -> Ok([S EXCEPT !.qn[e.src] = 0])
+      [] e.p \in {"pq_stop_done", "cf_stop"} /\ e.src \in Srcs -> Ok([S EXCEPT !.qn[e.src] = 0, !.qstop[e.src] = TRUE])
+      [] e.p = "rt_wait_end"      ->
+             \* e.a < 4: the wait was not ended by a notification (slice / target time-out)
+             IF S.armed /\ e.a < 4 /\ ~S.stopCall /\ PushWaiting(S) THEN Fail("C17.pushed_value_missed_the_loop_sat_out_a_wait_on_it")
+             ELSE Ok([S EXCEPT !.armed = FALSE])
       [] e.p = "rt_reset_push"    -> Ok([S EXCEPT !.fPush = FALSE])
       [] e.p = "rt_stop"          -> Ok([S EXCEPT !.fStop = TRUE])
       [] e.p = "rt_wait_begin"    ->
              \* the loop is about to sleep (mutex held) although a push or a stop has been signalled under that mutex
-             IF S.fPush \/ S.fStop THEN Fail("C17.notification_lost_while_waiting") ELSE Ok(S)
+             IF S.fPush \/ S.fStop THEN Fail("C17.notification_lost_while_waiting")
+             ELSE Ok([S EXCEPT !.armed = ~S.stopCall /\ ~InFlightAccept(S) /\ PushWaiting(S)])
       \* the stop flag is set before its point is numbered and the loop tests it after this point: a request numbered
       \* earlier must end the run without another cycle (there is no "current cycle" while the loop waits)
       [] e.p = "rt_compute_next"  -> Ok([S EXCEPT !.wallNext = e.b, !.nextT = e.a, !.inCycle = FALSE, !.noMore = S.fStop])
@@ -133,6 +169,8 @@ Step(e) == CASE e.e = "h"        -> OnHook(e)
              [] e.e = "stopret"  -> IF S.stopRet THEN Ok(S) ELSE Ok([S EXCEPT !.stopRet = TRUE, !.allow = IF e.th = 0 /\ S.inCycle THEN 0 ELSE 1])
              [] e.e = "cycled"   -> Ok([S EXCEPT !.inCycle = FALSE])
              [] e.e = "runret"   -> OnRunRet(e)
+             [] e.e = "call"     -> Ok([S EXCEPT !.calls = Put(@, e.th, [open |-> TRUE, fx |-> Effective(e), acc |-> FALSE])])
+             [] e.e = "ret"      -> Ok([S EXCEPT !.calls = Put(@, e.th, NoCall)])
              [] e.e = "end"      -> Ok([S EXCEPT !.ended = TRUE])
              [] OTHER            -> Ok(S)
 
